@@ -19,6 +19,7 @@ pub const ST_SENT: u8 = 4;
 pub const ST_RXBUSY: u8 = 5;
 pub const ST_RXDONE: u8 = 6;
 pub const ST_RXPROC: u8 = 7;
+pub const ST_ABANDONED: u8 = 8;
 
 pub fn state_name(s: u8) -> &'static str {
     match s {
@@ -30,6 +31,7 @@ pub fn state_name(s: u8) -> &'static str {
         5 => "RxBusy",
         6 => "RxDone",
         7 => "RxProcessing",
+        8 => "Abandoned",
         _ => "?",
     }
 }
